@@ -385,6 +385,13 @@ func (ds *dataSet) trimLastEmptyAof() *dataSetAof {
 	if lastAof.rtSize.Load() == 0 {
 		delete(ds.aofMap, lastAof.Left())
 		ds.aofSegs = ds.aofSegs[:aofLast]
+		// the trimmed segment is no longer the last one: a reader at the end of the
+		// previous segment must not try to follow into it (its file is being removed)
+		if aofLast > 0 {
+			ds.lastAofSeg.Store(ds.aofSegs[aofLast-1].Left())
+		} else {
+			ds.lastAofSeg.Store(-1)
+		}
 		return lastAof
 	}
 	return nil
